@@ -35,9 +35,27 @@ fn type_all(ctx: &mut Ctx, evs: &[Ev], report: &Report) -> Option<Rend> {
     r.shown
 }
 
-/// nothing, or the word `k` ended by finish / commit / ctrl-backspace / backspace
-fn earlier_words() -> Vec<Vec<Ev>> {
-    vec![vec![], vec![Ev::ch('k'), Ev::Finish], vec![Ev::ch('k'), Ev::Commit(0)], vec![Ev::ch('k'), Ev::CtrlBs], vec![Ev::ch('k'), Ev::Bs]]
+/// The ways an emoticon is typed: bare; after the word `k` ended by finish / commit / ctrl-backspace /
+/// backspace; and with a key that produces nothing (keypad Enter; in fixed mode also a keypad digit
+/// while the number-pad option is off) pressed just before it or after its first character.
+fn emoticon_histories(e: &str, phonetic: bool) -> Vec<Vec<Ev>> {
+    let typed: Vec<Ev> = e.chars().map(Ev::ch).collect();
+    let kp = |n: &str| Ev::key(crate::keys::by_name(n).unwrap().code);
+    let mut v: Vec<Vec<Ev>> = vec![];
+    for pre in [vec![], vec![Ev::ch('k'), Ev::Finish], vec![Ev::ch('k'), Ev::Commit(0)], vec![Ev::ch('k'), Ev::CtrlBs], vec![Ev::ch('k'), Ev::Bs]] {
+        v.push(pre.into_iter().chain(typed.iter().cloned()).collect());
+    }
+    let mut noops = vec![kp("VC_KP_ENTER")];
+    if !phonetic {
+        noops.push(kp("VC_KP_5"));
+    }
+    for n in noops {
+        v.push(std::iter::once(n.clone()).chain(typed.iter().cloned()).collect());
+        let mut mid = typed.clone();
+        mid.insert(1.min(mid.len()), n);
+        v.push(mid);
+    }
+    v
 }
 
 /// is `sub` a subsequence of `list` (in order)?
@@ -93,8 +111,7 @@ pub fn run(report: &Report, thorough: bool) -> Evidence {
                     return;
                 }
                 // bare, and after an earlier word ended in each of the four ways (same context)
-                for earlier in earlier_words() {
-                let evs: Vec<Ev> = earlier.iter().cloned().chain(e.chars().map(Ev::ch)).collect();
+                for evs in emoticon_histories(e, true) {
                 for ctx in ctxs.iter_mut() {
                     let Some(r) = type_all(ctx, &evs, report) else { continue };
                     checked.fetch_add(1, Ordering::Relaxed);
@@ -185,6 +202,10 @@ pub fn run(report: &Report, thorough: bool) -> Evidence {
                                 samples.offer(|| json!({"kind": "name/phonetic", "typed": text, "table": emojis, "result": items}));
                             }
                         }
+                        // the raw typed text is a non-emoji candidate too: emoji must not remove it
+                        if ctx.opts.english && !is_emoticon && !items.contains(&text) {
+                            report.add(Violation::new("C18", "non-emoji-candidates-changed", "raw-text-removed:phonetic").opts(&ctx.opts).events(&evs).feat("name", name.clone()).detail(format!("typed {:?} with the English option on: the raw typed text is not among {:?}", text, items)));
+                        }
                         // third clause: non-emoji candidates == ANSI twin's list
                         let Some(ra) = type_all(twin, &evs, report) else { continue };
                         let a: Vec<String> = ra.items().to_vec();
@@ -243,8 +264,7 @@ pub fn run(report: &Report, thorough: bool) -> Evidence {
                     return;
                 }
                 // (every main-zone key of Probhat has a value, so the raw key text is the emoticon)
-                for earlier in earlier_words() {
-                let evs: Vec<Ev> = earlier.iter().cloned().chain(e.chars().map(Ev::ch)).collect();
+                for evs in emoticon_histories(e, false) {
                 for (ctx, _) in ctxs.iter_mut() {
                     let Some(r) = type_all(ctx, &evs, report) else { continue };
                     checked.fetch_add(1, Ordering::Relaxed);
